@@ -980,13 +980,14 @@ class Ctx:
              "explicit": x is not None, "plan": plan}
         if x is not None:
             cb = x.get("cb") or {}
-            faulted = (x.get("alloc") is not None or x.get("pbar_fail") is not None
+            # (a clock jump is a fault too: the result under it must equal the fault-free twin's)
+            faulted = (x.get("alloc") is not None or x.get("pbar_fail") is not None or bool(x.get("clock"))
                        or any(a[0] in ("raise", "nonfinite") for a in cb.values()))
             if x.get("alloc") is not None:
                 f["alloc_k"], f["minb"] = x["alloc"]["k"], x["alloc"].get("minb", 0)
             f["pbar_at"] = x.get("pbar_fail")
         else:
-            faulted = any(plan.get(k) for k in ("raise", "alloc", "nonfinite", "pbar_fail"))
+            faulted = any(plan.get(k) for k in ("raise", "alloc", "nonfinite", "pbar_fail", "clock"))
         if not faulted:
             return f
         if not world.HAVE_SIMALLOC:
